@@ -164,7 +164,7 @@ def recognise(text, version):
                 return "unspec"      # '+5' / negative length: grammar says <int>
             return bad()
         if pos[0] == "*":
-            res = "unspec"
+            return bad()         # the placeholder of optional identifiers is not an identifier
     elif key in (("gfa2", "E"), ("gfa2", "F")):
         if key == ("gfa2", "E"):
             ids_ok = (pos[0] == "*" or ID2.match(pos[0])) and REF2.match(pos[1]) and REF2.match(pos[2])
